@@ -18,14 +18,15 @@ PROVED obligations (counted)
 BOUNDED stand-ins (rep.add_bounded, never counted; a failing input is additionally emitted as a refuted obligation with its native replay)
   materialize_standard_op as a whole (synthetic ops), _add_non_match_tensors_to_ignored_lists (sets: outside the pyvc subset), native cross-checks of the
   pyvc contracts, generate_quantization_parameters routing, _quant_params_to_transformation_insts (dtype algebra),
-  quantize_tensor frame, naive_min_max_quantize.materialize_fc_conv (bias / weight clauses).  Scopes are stated at each call."""
+  quantize_tensor frame, naive_min_max_quantize.materialize_fc_conv (bias / weight clauses), float_casting materialize functions.  Scopes are stated at each call.
+Known findings: rep.finding_for / rep.known_finding (none listed for C03).  replay(payload) re-executes a recorded failing input natively."""
 import ast, json, time
 import z3
 from vlib import core
 
 LEVEL = 'proof'
 MMU, TIG, PG, QTEN = 'algorithms/utils/min_max_quantize_utils.py', 'transformation_instruction_generator.py', 'params_generator.py', 'transformations/quantize_tensor.py'
-NMM, PERF = 'algorithms/uniform_quantize/naive_min_max_quantize.py', 'transformation_performer.py'
+NMM, PERF, FC_ = 'algorithms/uniform_quantize/naive_min_max_quantize.py', 'transformation_performer.py', 'algorithms/nonlinear_quantize/float_casting.py'
 P = 'C03'
 
 # ------------------------------------------------------------------------------------------------ bounded runner (fork pool over chunks)
@@ -186,6 +187,8 @@ def frame_ast(fn):
                      tensor.type,  flatbuffer_quantization.<attr>   (no del / global / nonlocal / setattr / exec)
       roots          `tensor` is bound once, to transformation_input.subgraph.tensors[transformation_input.tensor_id]; `flatbuffer_quantization` is bound once, to a fresh
                      schema_py_generated.QuantizationParametersT(); `transformation_input` is never rebound
+      buffer-store-guarded  the store to buffers[tensor.buffer].data is nested in `if tensor.buffer:` (buffer 0 is the shared empty buffer) and in
+                     `if transformation_input.quant_params.quantized_data is not None:`
       no-escape      no call receives `tensor`, `flatbuffer_quantization`'s alias of model state, or an expression rooted at `transformation_input` other than through
                      .quant_params or .tensor_id; no mutating method (append, ...) is invoked on an expression rooted at tensor / transformation_input
     Together: the function writes at most the target tensor's type and quantization and the data of buffers[tensor.buffer]."""
@@ -210,6 +213,19 @@ def frame_ast(fn):
     ok = binds.get('tensor') == ['transformation_input.subgraph.tensors[transformation_input.tensor_id]'] and binds.get('flatbuffer_quantization') == ['schema_py_generated.QuantizationParametersT()'] \
          and 'transformation_input' not in binds
     out['roots'] = (ok, '' if ok else f'tensor bound by {binds.get("tensor")}, flatbuffer_quantization by {binds.get("flatbuffer_quantization")}, transformation_input rebound: {"transformation_input" in binds}')
+    parents = {}
+    for n in ast.walk(node):
+        for c in ast.iter_child_nodes(n): parents[id(c)] = n
+    stores = [n for n in ast.walk(node) if isinstance(n, ast.Assign) and any(_u(t) == 'transformation_input.buffers[tensor.buffer].data' for t in n.targets)]
+    def guards(n):
+        g = []; c = n
+        while id(c) in parents:
+            pa = parents[id(c)]
+            if isinstance(pa, ast.If) and any(c is x for x in pa.body): g.append(_u(pa.test))
+            c = pa
+        return g
+    okg = len(stores) >= 1 and all({'tensor.buffer', 'transformation_input.quant_params.quantized_data is not None'} <= set(guards(n)) for n in stores)
+    out['buffer-store-guarded'] = (okg, '' if okg else f'{len(stores)} buffer stores; guards: {[guards(n) for n in stores]}')
     esc = []
     def root_chain(e):
         chain = []
@@ -331,6 +347,8 @@ def canaries(rep, m, fns, proved):
           ('routing stand-in', lambda mm: first_failure(mm, 'routing', N.routing_cases(2)))]),
         ('quantize_tensor: writes the buffer before the tensor\'s own', 'qten', ('      transformation_input.buffers[tensor.buffer].data = _pack_data(', '      transformation_input.buffers[tensor.buffer - 1].data = _pack_data('),
          [('frame AST obligations', lambda mm, s: [k for k, (ok, why) in frame_ast(core.Fn(QTEN, 'quantize_tensor', src_override=s)).items() if not ok]), ('frame stand-in', lambda mm: first_failure(mm, 'frame', N.frame_cases()))]),
+        ('quantize_tensor: buffer-0 guard dropped', 'qten', ('  if tensor.buffer:\n', '  if True:\n'),
+         [('frame AST obligations', lambda mm, s: [k for k, (ok, why) in frame_ast(core.Fn(QTEN, 'quantize_tensor', src_override=s)).items() if not ok]), ('frame stand-in', lambda mm: first_failure(mm, 'frame', N.frame_cases()))]),
         ('quantize_tensor: retypes tensor 0 instead of the target', 'qten', ('    tensor.type = quant_params_to_tflite_type(\n', '    transformation_input.subgraph.tensors[0].type = quant_params_to_tflite_type(\n'),
          [('frame AST obligations', lambda mm, s: [k for k, (ok, why) in frame_ast(core.Fn(QTEN, 'quantize_tensor', src_override=s)).items() if not ok]), ('frame stand-in', lambda mm: first_failure(mm, 'frame', N.frame_cases()))]),
     ]
@@ -368,7 +386,7 @@ def run(rep):
                pv=F(TIG, 'TransformationInstructionsGenerator._produce_transformation_for_vertical_opt'), chk=F(TIG, 'TransformationInstructionsGenerator._check_tensor_transformation_instructions_valid'),
                c1=F(TIG, 'check_horizontal_optimization'), c2=F(TIG, 'check_dq_q_elimination'), c3=F(TIG, 'check_replace_dq_q_with_rq'), c4=F(TIG, 'check_dq_no_quant_elimination'),
                qt=F(QTEN, 'quantize_tensor'), pack=F(QTEN, '_pack_data'), perf=F(PERF, 'TransformationPerformer.__init__'), app=F(PERF, 'TransformationPerformer._apply_transformations'),
-               fc=F(NMM, 'materialize_fc_conv'), bias=F(NMM, '_materialize_bias_for_conv_ops'))
+               fc=F(NMM, 'materialize_fc_conv'), bias=F(NMM, '_materialize_bias_for_conv_ops'), fpc=F(FC_, 'materialize_fc_conv'), fpt=F(FC_, 'materialize_conv2d_transpose'))
     # ---- (i)
     mode_table(rep, m, fns); admitted(rep, m, fns)
     # ---- (iii) routing + (vi) frame: AST obligations
@@ -399,7 +417,10 @@ def run(rep):
         ('frame', N.frame_cases, fns['qt'], 'transformations.quantize_tensor.quantize_tensor (frame, real flatbuffer objects)', '6-tensor / 6-buffer / 2-op model; target in {tensor on buffer 0, constant, activation with empty buffer, odd-length constant} x parameters in {4,8,16,32-bit uniform, 8-bit without data, 8-bit with quantized dimension, fp16, fp16 without data}; exhaustive',
          'only the target tensor\'s type / quantization and (iff tensor.buffer != 0 and data given) buffers[tensor.buffer].data change; no object is replaced'),
         ('bias', N.bias_cases, fns['fc'], 'naive_min_max_quantize.materialize_fc_conv (+ _materialize_bias_for_conv_ops)', 'FULLY_CONNECTED / CONV_2D / DEPTHWISE_CONV_2D x {SRQ a8w8, SRQ a16w8, DRQ w8, weight-only} x bias present / absent; exhaustive over that table',
-         'SRQ: activations of the activation width, integer weight, 32-bit (64-bit for 16-bit activations) bias; DRQ: float activations, integer weight, float bias; weight-only: float activations, weight behind ADD_DEQUANTIZE, float bias')):
+         'SRQ: activations of the activation width, integer weight, 32-bit (64-bit for 16-bit activations) bias; DRQ: float activations, integer weight, float bias; weight-only: float activations, weight behind ADD_DEQUANTIZE, float bias'),
+        ('fp16', N.fp16_cases, fns['fpc'], 'float_casting.materialize_fc_conv / materialize_embedding_lookup / materialize_conv2d_transpose (through the real algorithm registry)',
+         'FULLY_CONNECTED / CONV_2D / DEPTHWISE_CONV_2D / CONV_2D_TRANSPOSE with and without bias, EMBEDDING_LOOKUP; fp16 weight-only config; exhaustive over that table',
+         'weight -> [ADD_DEQUANTIZE] with 16-bit non-linear parameters holding the float16 data; every other operand with an entry -> [NO_QUANTIZE] without parameters')):
         bounded(rep, m, fam, gen(), fn, name, scope, f'{P}/{fn.name}/bounded:{fam}', clause)
     n, nf, fails, stats = bounded(rep, m, 'algebra', N.algebra_cases(4), fns['q2i'], 'transformation_instruction_generator._quant_params_to_transformation_insts (+ _group_consumer_transformations, _produce_*, _apply_vertical_optimization, check_*, validity check)',
             'one tensor; producer in {none, NO_QUANTIZE, ADD_DEQUANTIZE(pA), ADD_DEQUANTIZE(pB)}; 1-4 consumers each in {NO_QUANTIZE, ADD_QUANTIZE(pA), ADD_QUANTIZE(pB)} and, for a producer-less (constant) tensor, also {QUANTIZE_TENSOR(pA), QUANTIZE_TENSOR(pB), ADD_DEQUANTIZE(pA)}; '
@@ -436,7 +457,7 @@ def run(rep):
     rep.extra['not_covered'] = [
         'materialize_standard_op as a composition (its helpers _tensor_indices_with_dtype, _split_tensors_by_indices, _materialize_ignored_tensors, _merge_materialized_tensors are proved; the glue, _add_non_match_tensors_to_ignored_lists (sets) and _materialize_standard_op_{no_constraint, same_as_input_scale, same_as_output_scale} are bounded stand-ins only)',
         'the per-operator materialize functions of naive_min_max_quantize other than materialize_fc_conv (bounded) - their ignore lists / constraints are not checked against the TFLite operand roles',
-        'float_casting.materialize_* (fp16 weight-only): only the fp16 dtype table (nonlinear_quant_params_to_tflite_type) and the insert_dequant postcondition are proved',
+        'float_casting.materialize_* (fp16 weight-only): bounded stand-in only; the fp16 dtype table (nonlinear_quant_params_to_tflite_type) and the insert_dequant postcondition are proved',
         'recipe resolution to no_quantize (unmatched scope, unsupported op / config): C11 / C13',
         'dtype algebra of the instruction list (_quant_params_to_transformation_insts and helpers): bounded stand-in only (<= 4 consumers, 2 parameter classes, chains of length 1)',
         'TransformationPerformer._apply_single_transformation / _update_instructions implementing the retargeting rule the abstract interpretation assumes: C01 / C02 (A.7)',
